@@ -1,8 +1,13 @@
-"""C10, second part: TLC-simulated call histories (spec/Api.tla) replayed on corpus files.
+"""C10, second part: TLC-simulated call histories (spec/Api.tla) replayed on corpus files and on GENERATED files.
 
 For every step of a history the answer obtained on the one long-lived object is compared with
 the answer of the same query on a freshly opened object (memoised per distinct query): the
-property's own oracle.  Abstract argument indices are mapped onto what the file really has."""
+property's own oracle.  Abstract argument indices are mapped onto what the file really has.
+
+Generated files (vf/c10_writers.py): a deterministic small sample of the images the writers of the other properties'
+specifications emit (ElfImage: several sections under one name; LineProgram: DW_LNE_define_file, two-unit sections; DieTree:
+units of mixed contexts; LocRange: DWARF5 list sections with offset tables and DW_FORM_loclistx / DW_FORM_rnglistx; SymHash;
+thorough: Dynamic, Notes, versions) - every one gets the catalogue, the systematic patterns and a few simulated histories."""
 import io
 import os
 
@@ -12,9 +17,19 @@ QUICK_FILES = ['test/testfiles_for_unittests/sample_exe64.elf', 'test/testfiles_
                'test/testfiles_for_unittests/lib_versioned64.so.1.elf', 'test/testfiles_for_unittests/simple_gcc.elf.arm',
                'test/testfiles_for_unittests/aarch64_be_gnu_hash.so.elf', 'test/testfiles_for_unittests/dwarf_llpair.elf',
                'test/testfiles_for_unittests/compressed_64.o', 'test/testfiles_for_readelf/reloc_arm_gcc.o.elf',
-               'test/testfiles_for_readelf/dwarf_test_versions_mix.elf', 'test/testfiles_for_readelf/dwarf_v5ops.so.elf']
-# large files that the quick tier uses only for the list generators (v5 location/range lists need a pure DWARF5 producer)
-LISTS_ONLY_QUICK = {'test/testfiles_for_readelf/dwarf_v5ops.so.elf'}
+               'test/testfiles_for_readelf/dwarf_test_versions_mix.elf', 'test/testfiles_for_readelf/dwarf_v5ops.so.elf',
+               'test/testfiles_for_dwarfdump/dwarf_v5ops-11.so.elf']
+# large files that are used only for the list generators (v5 location/range lists need a pure DWARF5 producer)
+LIST_KINDS = ('iter_location_lists', 'iter_range_lists', 'iter_CU_range_lists_ex', 'iter_list_CUs')
+# file -> (quick, thorough): the generator kinds whose patterns are replayed there (None: no restriction, simulated histories too); the
+# only query between two next() calls is indexed_die
+LISTS_ONLY = {'test/testfiles_for_readelf/dwarf_v5ops.so.elf': (('iter_location_lists', 'iter_range_lists'), None),
+              # a pure DWARF5 producer whose entries use DW_FORM_rnglistx / DW_FORM_loclistx, for the list generators in both tiers
+              # (quick: the per-block generators, which do not scan the entries of all units)
+              'test/testfiles_for_dwarfdump/dwarf_v5ops-11.so.elf': (('iter_CU_range_lists_ex', 'iter_list_CUs'), LIST_KINDS)}
+# forms whose value is found through another section's table WHILE the entry is parsed, rarest first (Api.tla: indexed_die, a)
+INDEX_FORMS = [('DW_FORM_rnglistx',), ('DW_FORM_loclistx',), ('DW_FORM_addrx', 'DW_FORM_addrx1', 'DW_FORM_addrx2', 'DW_FORM_addrx3', 'DW_FORM_addrx4'),
+               ('DW_FORM_strx', 'DW_FORM_strx1', 'DW_FORM_strx2', 'DW_FORM_strx3', 'DW_FORM_strx4')]
 # small files that the quick tier uses only for the held-container patterns (a RELR table, as a section and behind DT_RELR)
 HELD_ONLY_QUICK = ['test/testfiles_for_unittests/lib_relro.so.elf']
 HELD_NAMES = ('held_iter', 'held_count', 'held_get', 'held_first', 'held_list')
@@ -29,7 +44,8 @@ MORE_FILES = ['test/testfiles_for_readelf/penalty_32_gcc.o.elf', 'test/testfiles
               'test/testfiles_for_unittests/lib_relro.so.elf', 'test/testfiles_for_unittests/trailing_null_dies.elf']
 
 QUICK_QUERIES = ('section_data', 'string_at', 'section_by_name', 'symbol_by_name', 'dyn_tag', 'die_at', 'parent', 'children', 'line_program', 'eh_cfi', 'decoded',
-                 'loc_of_die', 'ranges_of_die', 'versions', 'hash_lookup', 'attributes', 'ehabi', 'aranges', 'dwarf_again')
+                 'loc_of_die', 'ranges_of_die', 'versions', 'hash_lookup', 'attributes', 'ehabi', 'aranges', 'dwarf_again',
+                 'name_lookup', 'indexed_die', 'line_tables')
 CAP = 40          # items compared per generator
 
 
@@ -223,6 +239,16 @@ def catalogue(data):
     cat = {'nsec': ef.num_sections(), 'nseg': ef.num_segments()}
     secs = list(ef.iter_sections())
     cat['secnames'] = [s.name for s in secs][:64] + ['.no_such']
+    # names for the lookups by name (Api.tla: name_lookup, a): the names several sections bear first, then a name no section has,
+    # then the names of the last and of the first sections, then the rest
+    allnames = [s.name for s in secs]
+    dups = [n for i, n in enumerate(allnames) if allnames.count(n) > 1 and n not in allnames[:i]] if len(secs) <= 4096 else []
+    rest = []
+    for n in allnames[:0:-1][:3] + allnames[1:4]:
+        if n not in dups and n not in rest:
+            rest.append(n)
+    cat['names'] = (dups[:3] + ['.no_such'] + rest)[:8]
+    cat['dupnames'] = len(dups)
     cat['symtabs'] = [i for i, s in enumerate(secs) if type(s).__name__ == 'SymbolTableSection']
     cat['symnames'] = {}
     for i in cat['symtabs']:
@@ -241,6 +267,7 @@ def catalogue(data):
     cat['dies'] = {}
     cat['refdies'] = {}
     cat['locdies'] = {}
+    cat['xdies'] = []
     cat['ncfi'] = cat['nehcfi'] = 0
     if w.di:
         for cu in w.di.iter_CUs():
@@ -262,6 +289,25 @@ def catalogue(data):
                 cat['refdies'][cu.cu_offset] = refs
                 cat['locdies'][cu.cu_offset] = locs
         cat['info_size'] = w.di.debug_info_sec.size if w.di.debug_info_sec else 0
+        # entries (not the unit's first) with an attribute in an index form: per form class the first three of each of the first units
+        byform = [[] for _ in INDEX_FORMS]
+        for cu_off in cat['cus'][:6]:
+            per = [0] * len(INDEX_FORMS)
+            cu = w.di.get_CU_at(cu_off)
+            try:
+                for k, d in enumerate(cu.iter_DIEs()):
+                    if k == 0 or d.is_null():
+                        continue
+                    if k >= 40000 or min(per) >= 3:
+                        break
+                    forms = {a.form for a in d.attributes.values()}
+                    for fi_, fs in enumerate(INDEX_FORMS):
+                        if per[fi_] < 3 and forms & set(fs):
+                            per[fi_] += 1
+                            byform[fi_].append(d.offset)
+            except Exception:                           # noqa: a unit the library cannot walk is the walk's business (C04)
+                pass
+        cat['xdies'] = [x for x in byform if x]
     cat['segs_load'] = [(s['p_vaddr'], s['p_filesz']) for s in ef.iter_segments() if s['p_type'] == 'PT_LOAD']
     cat['held'] = _held_catalogue(World(data))
     return cat
@@ -296,6 +342,14 @@ def _answer(w, name, a, b):
         return _sec(ef.get_section_by_name(_pick(cat['secnames'], a * 6 + b)))
     if name == 'get_section':
         return _sec(ef.get_section((a * 6 + b) % cat['nsec'])) if cat['nsec'] else None
+    if name == 'name_lookup':
+        # the three lookups by name (they share the lazily built name map); a: which name (several sections may bear it), b: which call
+        nm = cat['names'][a % len(cat['names'])]
+        if b % 3 == 0:
+            return ('section', _sec(ef.get_section_by_name(nm)))
+        if b % 3 == 1:
+            return ('index', ef.get_section_index(nm))
+        return ('has', ef.has_section(nm))
     if name == 'section_index':
         return ef.get_section_index(_pick(cat['secnames'], a * 6 + b))
     if name in ('section_data', 'string_at'):
@@ -431,6 +485,35 @@ def _answer(w, name, a, b):
         return None if off is None else _die(di.get_CU_at(off).get_top_DIE())
     if name in ('die_at', 'die_attrs'):
         return _die(_die_at(w, a, b))
+    if name == 'die_count':
+        # a walk over every entry of (the first eight) units: afterwards every entry is parsed and cached
+        out = []
+        for k, cu in enumerate(di.iter_CUs()):
+            if k >= 8:
+                break
+            n = 0
+            for _d in cu.iter_DIEs():
+                n += 1
+                if n >= 50000:
+                    break
+            out.append(n)
+        return tuple(out)
+    if name == 'indexed_die':
+        # an entry with an attribute in an index form, looked up by offset (a: form class as the file has them, b: which entry)
+        if not cat['xdies']:
+            return None
+        lst = cat['xdies'][a % len(cat['xdies'])]
+        return _die(di.get_DIE_from_refaddr(lst[b % len(lst)]))
+    if name == 'line_tables':
+        # the tables of the line-number program header (directories, files) after the program was run, in full
+        off = _pick(cat['cus'], a * 6 + b, 1)
+        if off is None:
+            return None
+        lp = di.line_program_for_CU(di.get_CU_at(off))
+        if lp is None:
+            return None
+        n = len(lp.get_entries())
+        return (n,) + tuple((k, len(v), _c(v)) for k, v in sorted(lp.header.items()) if isinstance(v, list))
     if name == 'parent':
         d = _die_at(w, a, b)
         return None if d is None else _die(d.get_parent())
@@ -574,6 +657,17 @@ def start(w, kind, a, b):
     if kind == 'iter_range_lists':
         rl = di.range_lists()
         return iter(()) if rl is None else (_c(x) for x in rl.iter_range_lists())
+    if kind in ('iter_CU_range_lists_ex', 'iter_list_CUs'):
+        # DWARF5 list sections block by block: the blocks' headers with their offset tables (a even: range lists, a odd: location
+        # lists), and the raw lists of block a
+        loc = kind == 'iter_list_CUs' and a % 2 == 1
+        if not (di.debug_loclists_sec if loc else di.debug_rnglists_sec):
+            return iter(())                                                   # (the DWARF5 sections only)
+        lists = di.location_lists() if loc else di.range_lists()
+        if kind == 'iter_list_CUs':
+            return (_c(x) for x in lists.iter_CUs())
+        blocks = list(lists.iter_CUs())
+        return iter(()) if not blocks else (_c(x) for x in lists.iter_CU_range_lists_ex(blocks[a % len(blocks)]))
     if kind == 'line_entries':
         off = _pick(cat['cus'], a * 6 + b, 1)
         if off is None:
@@ -605,6 +699,7 @@ class _Ledger:
         self.notes = []
         self.samples = []
         self.nviol = 0
+        self.gen_time = None
 
     def mismatch(self, clause, tag, case, exp, obs):
         self.nviol += 1
@@ -622,11 +717,14 @@ def _file_job(args):
     led = _Ledger(tier)
     hists = list(core.Run.cases(hists_path))
     patterns = list(core.Run.cases(pats_path))
-    steps = _replay_file(led, rel, fi, nfiles, hists, patterns, share)
-    return rel, led.mism, led.validated, led.counts, led.notes, led.samples, steps, led.nviol
+    steps = _replay_file(led, rel, fi, nfiles, hists, patterns, share, args[7] if len(args) > 7 else None)
+    return rel, led.mism, led.validated, led.counts, led.notes, led.samples, steps, led.nviol, led.gen_time
 
 
-def histories(run):
+def histories(run, generation=None):
+    from . import c10_writers
+    if generation is None:
+        generation = c10_writers.Generation(run).start()
     nsim = 60 if run.tier == 'quick' else 600
     res = run.tlc('Api', 'Api_sim', simulate=nsim, depth=121, workers=1)
     nh = sum(1 for _ in run.cases(res.out))
@@ -635,17 +733,29 @@ def histories(run):
     pres = run.tlc('Api', 'Api_patterns', workers=2)
     run.extra['api_patterns'] = sum(1 for _ in run.cases(pres.out))
     files = QUICK_FILES + HELD_ONLY_QUICK if run.tier == 'quick' else QUICK_FILES + MORE_FILES
+    import time as _t
+    _t0 = _t.time()
+    gfiles, gstats = generation.finish()               # the writers' images (their TLC runs were started at the beginning of the check)
+    run.notes.append('generated files: waited %.1fs for the writers' % (_t.time() - _t0))
+    run.extra['api_generated_files'] = gstats
     from multiprocessing import Pool
     # the simulated histories are dealt out among the files that replay histories (quick: not the patterns-only files)
-    takers = [rel for rel in files if not (run.tier == 'quick' and (rel in LISTS_ONLY_QUICK or rel in HELD_ONLY_QUICK))]
+    tix = 0 if run.tier == 'quick' else 1
+    takers = [rel for rel in files if not (LISTS_ONLY.get(rel, (None, None))[tix] is not None or (run.tier == 'quick' and rel in HELD_ONLY_QUICK))]
     jobs = [(rel, fi, len(files), run.tier, res.out, pres.out, (takers.index(rel), len(takers)) if rel in takers else None)
             for fi, rel in enumerate(files)]
+    # generated file k: the patterns, and 3 (quick) / 60 (thorough) of the simulated histories
+    jobs += [(g['label'], len(files) + k, len(files) + len(gfiles), run.tier, res.out, pres.out, (k, len(gfiles)), g['path']) for k, g in enumerate(gfiles)]
     # the largest file first
     jobs.sort(key=lambda j: -os.path.getsize(os.path.join(core.REPO, j[0])) if os.path.exists(os.path.join(core.REPO, j[0])) else 0)
     with Pool(min(8, core.NPROC)) as pool:
         results = pool.map(_file_job, jobs, chunksize=1)
     steps = 0
-    for rel, mism, validated, counts, notes, samples, st, nviol in results:
+    gsum = {}
+    for rel, mism, validated, counts, notes, samples, st, nviol, gtime in results:
+        if gtime:
+            k = rel.split('#')[0]
+            gsum[k] = [x + y for x, y in zip(gsum.get(k, [0, 0, 0.0]), (1,) + gtime)]
         for clause, tag, case, exp, obs in mism:
             run.mismatch(clause, tag, case, exp, obs)
         run.nviol += max(0, nviol - len(mism))
@@ -657,20 +767,31 @@ def histories(run):
             if len(run.samples) < 4:
                 run.samples.append(sm)
         steps += st
+    for k, (nf, nh_, sec) in sorted(gsum.items()):
+        run.notes.append('api %s: %d files, %d histories in %.1fs' % (k, nf, nh_, sec))
     run.extra['api_history_steps'] = steps
-    run.extra['api_files'] = len(files)
+    run.extra['api_files'] = len(files) + len(gfiles)
 
 
-def _replay_file(run, rel, fi, nfiles, hists, patterns, share=None):
+def _replay_file(run, rel, fi, nfiles, hists, patterns, share=None, gpath=None):
     steps = 0
-    files = [None] * nfiles
+    gen = gpath is not None
+    ftag = rel.split('#')[0] if gen else os.path.basename(rel)           # generated files: 'gen:<source>'
     if True:
-        path = os.path.join(core.REPO, rel)
+        path = gpath or os.path.join(core.REPO, rel)
         if not os.path.exists(path) or os.path.getsize(path) == 0:
             run.notes.append('fixture missing: ' + rel)
             return 0
         data = open(path, 'rb').read()
-        cat = catalogue(data)
+        image = {'image_b64': core.b64(data)} if gen else {}
+        try:
+            cat = catalogue(data)
+        except Exception as ex:                     # noqa
+            if not gen:
+                raise
+            # a writer's image the library cannot open / enumerate at all: the owning property's business, no history can be replayed on it
+            run.notes.append('generated file %s: no catalogue (%s), left out' % (rel, type(ex).__name__))
+            return 0
         truth_q = {}
         truth_g = {}
 
@@ -715,26 +836,34 @@ def _replay_file(run, rel, fi, nfiles, hists, patterns, share=None):
             cls = (st['name'], core.digest(repr(truth_g[(st['name'], st['a'], st['b'])] if st['op'] == 'start' else
                                                  truth_q[(st['name'], st['a'], st['b'])])),
                    tuple((o['op'], o['name'] if o['op'] != 'advance' else '', o['g'], o['w'],
-                          (o['a'], o['b']) if o['op'] == 'query' else None) for o in p[1:]))
+                          (o['a'], o['b']) if o['op'] in ('query', 'start') else None) for o in p[1:]))
             if cls in seenp:
                 continue
             held = all(o['name'] in HELD_NAMES for o in p if o['op'] in ('query', 'start', 'advance'))
             if run.tier == 'quick' and rel in HELD_ONLY_QUICK and not held:
                 continue
-            if run.tier == 'quick' and rel in LISTS_ONLY_QUICK and (st['op'] != 'start' or st['name'] not in ('iter_location_lists', 'iter_range_lists')
-                                                                   or any(o['op'] == 'query' for o in p)):
+            only = LISTS_ONLY.get(rel, (None, None))[0 if run.tier == 'quick' else 1]
+            if only is not None:
+                kinds = {o['name'] for o in p if o['op'] == 'start'}
+                if not kinds or not kinds <= set(only) or any(o['op'] == 'query' and o['name'] not in ('indexed_die', 'die_count') for o in p):
+                    continue
+            # lookups by name on a file whose sections all have different names: quick, the first two names only
+            if run.tier == 'quick' and not cat['dupnames'] and any(o['name'] == 'name_lookup' and o['a'] > 1 for o in p):
                 continue
             if run.tier == 'quick' and not held and st['op'] == 'start' and \
                     any(o['op'] == 'query' and (o['a'] != 0 or o['name'] not in QUICK_QUERIES) for o in p):
                 continue
-            # large files: the query-in-between pattern only with four representative queries
+            # large files: the query-in-between pattern only with four representative queries (and the two that go with the list generators)
             if cat.get('info_size', 0) > 50000 and any(o['op'] == 'query' and o['name'] not in
-                                                       ('die_at', 'line_program', 'eh_cfi', 'loc_of_die') for o in p):
+                                                       ('die_at', 'line_program', 'eh_cfi', 'loc_of_die', 'indexed_die', 'die_count') for o in p):
                 continue
             seenp.add(cls)
             pats.append(p)
         mine = (hists[share[0]::share[1]] if run.tier == 'quick' and share else hists) + pats
-        if run.tier == 'quick' and share is None:
+        if gen:
+            nh = 3 if run.tier == 'quick' else 60
+            mine = [hists[(share[0] * nh + j) % len(hists)] for j in range(nh)] + pats
+        if share is None:
             mine = pats
         import time as _t
         _t0 = _t.time()
@@ -746,14 +875,14 @@ def _replay_file(run, rel, fi, nfiles, hists, patterns, share=None):
             gens = []
             for si, op in enumerate(h):
                 steps += 1
-                case = {'file': rel, 'history': h[:si + 1]}
+                case = dict(image, file=rel, history=h[:si + 1])
                 if op['op'] == 'perturb':
                     w.perturb(op['name'], op['w'])
                 elif op['op'] == 'query':
                     got = answer(w, op['name'], op['a'], op['b'])
                     want = fresh_answer(op['name'], op['a'], op['b'])
                     if got != want:
-                        run.mismatch('history.query.' + op['name'], os.path.basename(rel), case, repr(want)[:400], repr(got)[:400])
+                        run.mismatch('history.query.' + op['name'], ftag, case, repr(want)[:400], repr(got)[:400])
                     else:
                         run.validated += 1
                 elif op['op'] == 'start':
@@ -775,7 +904,9 @@ def _replay_file(run, rel, fi, nfiles, hists, patterns, share=None):
                         continue
                     if got != want:
                         g[5] = True
-                        run.mismatch('history.generator.' + g[1], os.path.basename(rel), case, repr(want)[:400], repr(got)[:400])
+                        # (the class of the case: were the streams repositioned from outside while the generator was alive?)
+                        seek = any(o['op'] == 'perturb' for o in h[:si])
+                        run.mismatch('history.generator.' + g[1], ftag + ('+seek' if seek else ''), case, repr(want)[:400], repr(got)[:400])
                     else:
                         run.validated += 1
                 elif op['op'] == 'abandon':
@@ -783,5 +914,8 @@ def _replay_file(run, rel, fi, nfiles, hists, patterns, share=None):
             run.count(('api', rel, hi), nontrivial=True)
             if len(run.samples) < 4 and hi == 1 and fi == 0:
                 run.samples.append({'file': rel, 'history': h[:12]})
-        run.notes.append('api %s: %d histories in %.1fs' % (os.path.basename(rel), len(mine), _t.time() - _t0))
+        if not gen or run.nviol:
+            run.notes.append('api %s: %d histories in %.1fs' % (rel if gen else os.path.basename(rel), len(mine), _t.time() - _t0))
+        else:
+            run.gen_time = (len(mine), _t.time() - _t0)
     return steps
